@@ -72,10 +72,11 @@ impl Oracle {
         Oracle { n, grounded: v, rounds, complete: complete(tts), two: models2(tts), stable: stable(tts) }
     }
 
-    /// brute force over all 3^n / 2^n interpretations with Gamma computed from the formulas (n <= 9)
+    /// brute force with Gamma computed from the formulas. Complete, two-valued and stable models all refine the grounded
+    /// interpretation (a two-valued model is a total fixpoint of Gamma), so only the positions the grounded
+    /// interpretation leaves undecided are enumerated: 3^u resp. 2^u candidates (u <= 10), for any number of statements.
     pub fn from_formulas(l: &LargeAdf) -> Oracle {
         let n = l.labels.len();
-        assert!(n <= 9, "the brute-force oracle is meant for mid-size ADFs");
         let mut v = vec![U; n];
         let mut rounds = 0;
         loop {
@@ -87,27 +88,31 @@ impl Oracle {
             rounds += 1;
         }
         let grounded = v;
+        let und: Vec<usize> = (0..n).filter(|i| grounded[*i] == U).collect();
+        let u = und.len();
+        assert!(u <= 10, "the brute-force oracle needs <= 10 statements left undecided by the grounded interpretation");
         let mut complete = BTreeSet::new();
-        for k in 0..3usize.pow(n as u32) {
+        for k in 0..3usize.pow(u as u32) {
             let mut k = k;
-            let mut c = vec![];
-            for _ in 0..n {
-                c.push((k % 3) as u8);
+            let mut c = grounded.clone();
+            for p in &und {
+                c[*p] = (k % 3) as u8;
                 k /= 3;
-            }
-            // complete models refine the grounded interpretation: skip the others early
-            if (0..n).any(|i| grounded[i] != U && c[i] != grounded[i]) {
-                continue;
             }
             if l.gamma(&c) == c {
                 complete.insert(c);
             }
         }
+        let sup = l.supports();
         let mut two = BTreeSet::new();
         let mut stable = BTreeSet::new();
-        for a in 0..(1u32 << n) {
-            let m: Interp = (0..n).map(|i| (a >> i & 1) as u8).collect();
-            if (0..n).all(|s| l.conds[s].eval(a) == (m[s] == T)) {
+        for a in 0..(1u32 << u) {
+            let mut m = grounded.clone();
+            for (j, p) in und.iter().enumerate() {
+                m[*p] = (a >> j & 1) as u8;
+            }
+            let _ = &sup;
+            if (0..n).all(|s| l.conds[s].eval_with(&|x| m[x] == T) == (m[s] == T)) {
                 // reduct: false statements replaced by falsum, then the least fixpoint
                 let red = LargeAdf {
                     labels: l.labels.clone(),
@@ -123,6 +128,64 @@ impl Oracle {
             }
         }
         Oracle { n, grounded, rounds, complete, two, stable }
+    }
+}
+
+/// SP: large sparse ADFs - a long decided backbone (chains from constants) and a ring of 7 open statements placed at the
+/// highest positions, whose conditions also mention decided statements. Sizes cross 64 and 255.
+pub fn sparse(idx: u64) -> LargeAdf {
+    let n = [70usize, 130, 270][(idx % 3) as usize];
+    let open = 7usize;
+    let back = n - open;
+    let pad = |i: usize| format!("t{:03}", i);
+    // every second instance numbers the statements downwards, so that lexicographic sorting reverses the order
+    let down = (idx / 3) % 2 == 1;
+    let labels: Vec<String> = (0..n).map(|i| if down { pad(n - 1 - i) } else { pad(i) }).collect();
+    let mut conds = vec![];
+    for i in 0..back {
+        conds.push(match i {
+            0 => Fm::Top,
+            1 => Fm::Bot,
+            _ => match (i + idx as usize) % 4 {
+                0 => Fm::not(Fm::Atom(i - 1)),
+                1 => Fm::bin(1, Fm::Atom(i - 1), Fm::Atom(i - 2)),
+                2 => Fm::bin(0, Fm::Atom(i - 1), Fm::not(Fm::Atom(i - 2))),
+                _ => Fm::bin(4, Fm::Atom(i - 1), Fm::Atom(i - 2)),
+            },
+        });
+    }
+    let ring_idx = idx / 6;
+    let mut ri = ring_idx;
+    for j in 0..open {
+        let i = back + j;
+        let c = ring_cond((ri % RING_OPS as u64) as usize, j, open);
+        ri /= RING_OPS as u64;
+        // shift the ring's atoms to the high positions and tie every condition to two decided statements
+        let c = shift_atoms(&c, back);
+        let d1 = Fm::Atom((j * 9 + 3) % back);
+        let d2 = Fm::Atom((j * 5 + 40) % back);
+        conds.push(match j % 3 {
+            0 => Fm::bin(0, c, Fm::bin(1, d1, Fm::not(d2))),
+            1 => Fm::bin(1, c, Fm::bin(0, d1, d2)),
+            _ => Fm::bin(4, c, Fm::bin(0, d1.clone(), Fm::not(d1))),
+        });
+        let _ = i;
+    }
+    LargeAdf { written: labels.clone(), labels, conds, shape: "sparse" }
+}
+
+fn shift_atoms(f: &Fm, by: usize) -> Fm {
+    let b = |x: &Fm| Box::new(shift_atoms(x, by));
+    match f {
+        Fm::Top => Fm::Top,
+        Fm::Bot => Fm::Bot,
+        Fm::Atom(i) => Fm::Atom(*i + by),
+        Fm::Not(x) => Fm::Not(b(x)),
+        Fm::And(x, y) => Fm::And(b(x), b(y)),
+        Fm::Or(x, y) => Fm::Or(b(x), b(y)),
+        Fm::Imp(x, y) => Fm::Imp(b(x), b(y)),
+        Fm::Iff(x, y) => Fm::Iff(b(x), b(y)),
+        Fm::Xor(x, y) => Fm::Xor(b(x), b(y)),
     }
 }
 
